@@ -214,6 +214,16 @@ def discretize(case):
     bf = g.get_all_boundary_faces()
     stages = list(case.get("history") or []) + [{"neu": case["neu"], "mu": case["mu"], "how": case.get("how", [])}]
     discr = pp.Tpsa(KW)
+    # the same Tpsa object first discretises other grids (each with its own data dictionary)
+    for spec0 in case.get("pre_grids") or []:
+        g0 = make_grid(spec0)
+        bf0 = g0.get_all_boundary_faces()
+        bc0 = pp.BoundaryConditionVectorial(g0, bf0, ["dir"] * bf0.size)
+        C0 = pp.FourthOrderTensor(float(case["mu"]) * np.ones(g0.num_cells),
+                                  float(case["lam"]) * np.ones(g0.num_cells))
+        data0 = {pp.PARAMETERS: {KW: {"fourth_order_tensor": C0, "bc": bc0}},
+                 pp.DISCRETIZATION_MATRICES: {KW: {}}}
+        discr.discretize(g0, data0)
     first = stages[0]
     bc = pp.BoundaryConditionVectorial(g, bf, ["dir"] * bf.size)
     _set_bc_flags(bc, bf, first["neu"])
@@ -240,7 +250,7 @@ def discretize(case):
         raise RuntimeError("Tpsa.discretize did not build its cell-to-face maps")
     mats = data[pp.DISCRETIZATION_MATRICES][KW]
     hist_diff = 0.0
-    if len(stages) > 1:
+    if len(stages) > 1 or case.get("pre_grids"):
         g2 = make_grid(case["grid"])
         bc2 = pp.BoundaryConditionVectorial(g2, bf, ["dir"] * bf.size)
         _set_bc_flags(bc2, bf, case["neu"])
@@ -312,7 +322,8 @@ class C16(Prop):
             "constructor), StructuredTriangleGrid, StructuredTetrahedralGrid "
             "(3-D larger in the thorough tier), 55% with every node moved by a dyadic offset "
             "(non-planar hexahedral faces included); constant Lame parameters from a dyadic set; "
-            "every fourth case is a HISTORY: one Tpsa object / grid / data dictionary discretised 2-3 times, "
+            "every seventh case uses ONE Tpsa object on a sequence of grids ending with a pair of equal size "
+            "signature but different connectivity (transposed shapes); every fourth case is a HISTORY: one Tpsa object / grid / data dictionary discretised 2-3 times, "
             "bc types or mu changed in place or by new objects between the calls, final matrices also "
             "compared (1e-12) with a fresh Tpsa on fresh data; boundary: all Dirichlet (40%), Dirichlet/Neumann per face (30%) or per face-component "
             "(30% + every third case: rollers, Dirichlet in some components and Neumann in others on one "
@@ -336,6 +347,22 @@ class C16(Prop):
         lams = [0.5, 1.0, 2.0, 4.0, 0.25, 1.5]
         for idx in range(n):
             spec = grid_spec(rng, tier)
+            pre_grids = None
+            if idx % 7 == 2:
+                # directed: ONE Tpsa object on a SEQUENCE OF GRIDS; the earlier grid has the same
+                # (dim, cells, faces, nodes, nnz) as the case's grid but different connectivity
+                # (transposed shape), sometimes preceded by an unrelated grid
+                kind, shape = rng.choice([("cart", [2, 3]), ("cart", [3, 2]), ("cart", [1, 3]), ("tri", [2, 3]),
+                                          ("tri", [1, 2]), ("tri", [3, 1]), ("cart", [1, 2, 1]), ("cart", [2, 1, 1]),
+                                          ("cart", [1, 2, 3] if tier != "quick" else [1, 1, 2])])
+                spec = {"kind": kind, "n": shape}
+                twin = {"kind": kind, "n": shape[::-1] if shape[::-1] != shape else shape[1:] + shape[:1]}
+                pre_grids = [twin]
+                if rng.random() < 0.4:
+                    pre_grids.insert(0, {"kind": "tri", "n": [1, 1]})
+                if rng.random() < 0.4:
+                    gg = make_grid(spec)
+                    spec["pert"] = [[rng.randint(-4, 4) for _ in range(gg.num_nodes)] for _ in range(gg.dim)]
             g = make_grid(spec)
             nd = g.dim
             bf = [int(f) for f in g.get_all_boundary_faces()]
@@ -390,7 +417,7 @@ class C16(Prop):
                         neu = [[k, f] for f in pick() for k in range(nd)]
                     history[-1] = {"neu": [], "mu": mu, "how": history[-1]["how"]}
                     how = ["bc_inplace", "mu_inplace"]
-            yield {"grid": spec, "mu": mu, "lam": rng.choice(lams), "neu": neu, "history": history, "how": how,
+            yield {"grid": spec, "mu": mu, "lam": rng.choice(lams), "neu": neu, "history": history, "how": how, "pre_grids": pre_grids,
                    "mode": mode, "t": t}
 
     # -------------------------------------------------------------- implementation
@@ -494,7 +521,7 @@ class C16(Prop):
         res = self._full(case)
         if res.get("hist_diff", 0.0) > 1e-12:
             return (f"discretisation depends on the history of the Tpsa object: after {len(case.get('history') or [])} "
-                    f"earlier discretisation(s) the matrices differ from a fresh Tpsa on fresh data by "
+                    f"earlier discretisation(s) on this grid and {len(case.get('pre_grids') or [])} on other grids the matrices differ from a fresh Tpsa on fresh data by "
                     f"{res['hist_diff']:.3e} (relative)")
         nd, rd, nc, nf = res["nd"], res["rd"], res["nc"], res["nf"]
         ndof = (nd + rd + 1) * nc
@@ -561,6 +588,7 @@ class C16(Prop):
         self._stats["dims"][res["nd"]] = self._stats["dims"].get(res["nd"], 0) + 1
         self._stats["bc_modes"][case["mode"]] = self._stats["bc_modes"].get(case["mode"], 0) + 1
         self._stats["histories"] = self._stats.get("histories", 0) + int(bool(case.get("history")))
+        self._stats["grid_sequences"] = self._stats.get("grid_sequences", 0) + int(bool(case.get("pre_grids")))
         if self._full(case).get("inv"):
             self._stats["nonsingularity_certificates"] = self._stats.get("nonsingularity_certificates", 0) + 1
         return res["nc"] >= 2 and any(x != 0 for x in case["t"])
